@@ -89,7 +89,7 @@ type JenniesHints map[string]any
 // Bonus: in a way that can be (un)marshaled to/from JSON,
 // which is useful for unit tests.
 type Type struct {
-	Kind     Kind
+	Kind     Kind `jsonschema:"required"`
 	Nullable bool
 	Default  any `json:",omitempty"`
 
